@@ -7,6 +7,9 @@ import PetgraphModel.Proofs.C12Kruskal
 import PetgraphModel.Proofs.C12Heap
 import PetgraphModel.Proofs.C12Prim
 import PetgraphModel.Proofs.C12W2Complete
+import PetgraphModel.Proofs.C12W4FromElements
+import PetgraphModel.Proofs.C12W4PrimDirected
+import PetgraphModel.Proofs.C12W4Heap
 /-
 C12 — `min_spanning_tree` yields a minimum spanning forest; `min_spanning_tree_prim` a minimum
 spanning tree of the first node's component.
@@ -374,5 +377,340 @@ example : kruskal exView [(0, 1, 0), (1, 2, 1), (2, 0, 2), (3, 3, 3)] =
     .ok [2, 0, 1, 3] [⟨2, 0, 3⟩, ⟨0, 1, 4⟩] := by decide
 example : prim exView = .ok [2, 0, 1, 3] [⟨0, 2, 3⟩, ⟨0, 1, 4⟩] := by decide
 example : viewOkB exView = true ∧ erOkB exView [(0, 1, 0), (1, 2, 1), (2, 0, 2), (3, 3, 3)] = true := by decide
+
+/-! Part 8 — wave 4, goal 1: `from_elements` collects the stream into the forest -/
+
+/-- **`Graph::from_elements` on an element stream** (`MstModel.collectGraphState` = the C01 `Graph`
+model's transcription `G.fromElements` of `from_elements_indexable`, run on the stream; edge weights
+travel through the bijective coding `encW`).  For every stream in range (`FeFits`: every edge position
+is a node position; both vectors fit the index type) `from_elements` does not panic and the collected
+graph IS the stream: node `i` carries the `i`-th node weight, edge `j` joins the nodes at the two
+positions of the `j`-th edge element and carries its weight, the edge type is the requested one, and
+the C01 representation invariant (coherent adjacency lists) holds. -/
+theorem C12_from_elements_graph (endv : Nat) (directed : Bool) (ns : List Nat) (es : List EdgeEl)
+    (h : FeFits endv ns es) :
+    ∃ s, collectGraphState endv directed ns es = some s ∧ s.nodes.map (·.weight) = ns ∧
+      s.edges.map (fun e => (e.src, e.tgt, decW e.weight)) = es.map (fun e => (e.s, e.t, e.w)) ∧
+      s.directed = directed ∧ GProofs.Inv s := by
+  obtain ⟨s, h1, h2, h3, h4, h5⟩ := collectGraphState_spec endv directed ns es h
+  refine ⟨s, h1, h2, ?_, h4, h5⟩
+  have : s.edges.map (fun e => (e.src, e.tgt, decW e.weight)) =
+      (gEdges s).map (fun x => (x.1, x.2.1, decW x.2.2)) := by simp [gEdges, List.map_map, Function.comp]
+  rw [this, h3]
+  simp [List.map_map, Function.comp, decW_encW]
+
+/-- the coding of the edge weights loses nothing -/
+theorem C12_weight_coding (w : Int) : decW (encW w) = w := decW_encW w
+
+/-- **`StableGraph::from_elements` on an element stream** (the same loop over the C02 model): no
+fault (`debug_assert!`, bounds), no panic, no vacancy; the slots are the elements in order. -/
+theorem C12_from_elements_stable (fin : Nat) (ns : List Nat) (es : List EdgeEl) (h : FeFits fin ns es) :
+    ∃ s, collectStableState fin ns es = .ok (some s) ∧ s.nodes.map (·.w) = ns.map natSome ∧
+      s.edges.map (fun e => (e.a, e.b, e.w)) = es.map (fun e => (e.s, e.t, some e.w)) := by
+  obtain ⟨s, h1, h2, h3⟩ := collectStableState_spec fin ns es h
+  exact ⟨s, h1, h2, h3⟩
+
+/-- **what the harness observes of the collected graph** (all three graph types of the `fe=` field):
+the node weights in index order are the node elements, and the edges in index order, each as
+(weight of its source node, weight of its target node, edge weight), are the edge elements with the
+positions looked up in the node elements — which is what the judge's `absEdges` computes, i.e. the
+collected graph is the forest the judge judged. -/
+theorem C12_from_elements_observed (kind : String) (ns : List Nat) (es : List EdgeEl)
+    (h : FeFits u32max ns es) :
+    collect kind ns es = .ok ns (streamEdges ns es) ∧ absEdges ns es = some (streamEdges ns es) :=
+  ⟨collect_spec kind ns es h, absEdges_eq_streamEdges h.pos⟩
+
+/-- outside the range because of a position: `add_edge` panics (documented: index out of bounds) -/
+theorem C12_from_elements_bad_position_panics (endv : Nat) (directed : Bool) (ns : List Nat) (e : EdgeEl)
+    (hn : ns.length ≤ endv) (hbad : ns.length ≤ e.s ∨ ns.length ≤ e.t) :
+    collectGraph endv directed ns [e] = .panic :=
+  collectGraph_panic_of_bad_position endv directed ns e hn hbad
+
+/-- the streams of the MST models are in range and collect into the accepted items -/
+theorem C12_from_elements_items (kind : String) (nodes : List Nat) (A : List Item)
+    (hin : ∀ it ∈ A, it.a ∈ nodes ∧ it.b ∈ nodes) (hn : nodes.length ≤ u32max) (hA : A.length ≤ nodes.length) :
+    collect kind nodes (A.map (toEl nodes)) = .ok nodes (A.map itemTriple) := by
+  obtain ⟨hpos, hse⟩ := streamEdges_toEl hin
+  have hfit : FeFits u32max nodes (A.map (toEl nodes)) := ⟨hn, by simp; omega, hpos⟩
+  rw [collect_spec kind _ _ hfit, hse]; rfl
+
+/-- **Kruskal, end to end**: on every case the driver accepts, collecting the Kruskal model's stream
+with `from_elements` (any of the three graph types) gives a graph whose node weights are the graph's
+nodes in order and whose edges — endpoints read off the node weights — are exactly the accepted
+items `A`, a minimum spanning forest of the abstract graph (`KruskalOnGraph`). -/
+theorem C12_from_elements_kruskal (v : View) (er : List (Nat × Nat × Nat)) (hv : viewOkB v = true)
+    (her : erOkB v er = true) (hn : v.g.nodes.length ≤ u32max) (kind : String) :
+    ∃ A : List Item, kruskal v er = .ok v.g.nodes (A.map (toEl v.g.nodes)) ∧ KruskalOnGraph v A ∧
+      collect kind v.g.nodes (A.map (toEl v.g.nodes)) = .ok v.g.nodes (A.map itemTriple) := by
+  obtain ⟨hg, hk, _⟩ := viewOkB_sound hv
+  obtain ⟨A, hrun, hres⟩ := kruskal_on_graph v hk hg er (erOkB_sound her)
+  refine ⟨A, hrun, hres, C12_from_elements_items kind _ A ?_ hn ?_⟩
+  · intro it hit
+    obtain ⟨e, he, _, hends⟩ := hres.edges it hit
+    rcases hends with ⟨h1, h2⟩ | ⟨h1, h2⟩
+    · rw [← h1, ← h2]; exact hg.2 e he
+    · rw [← h1, ← h2]; exact ⟨(hg.2 e he).2, (hg.2 e he).1⟩
+  · obtain ⟨reps, hr⟩ := repSystem_exists v.g.edges v.g.nodes
+    have := hres.count reps hr; omega
+
+/-- **Prim (undirected), end to end**: the collected graph of the Prim model's stream has the graph's
+nodes in order and, as edges, the minimum spanning tree `A` of the first node's component. -/
+theorem C12_from_elements_prim (v : View) (hv : viewOkB v = true) (hd : v.g.directed = false)
+    (hn : v.g.nodes.length ≤ u32max) (kind : String) (s : Nat) (rest : List Nat) (hV : v.g.nodes = s :: rest) :
+    ∃ A : List Item, prim v = .ok v.g.nodes (A.map (toEl v.g.nodes)) ∧ PrimTree v s A ∧
+      collect kind v.g.nodes (A.map (toEl v.g.nodes)) = .ok v.g.nodes (A.map itemTriple) := by
+  obtain ⟨hg, _, hp⟩ := viewOkB_sound hv
+  obtain ⟨A, hrun, ht⟩ := (prim_correct v (hp hd)).2 s rest hV
+  have hsN : s ∈ v.g.nodes := by rw [hV]; exact List.mem_cons_self ..
+  refine ⟨A, hrun, ht, C12_from_elements_items kind _ A ?_ hn ?_⟩
+  · intro it hit
+    obtain ⟨h1, h2⟩ := ht.within it hit
+    exact ⟨conn_stays hg.2 h1 hsN, conn_stays hg.2 h2 hsN⟩
+  · obtain ⟨comp, hnd, hmem, hcnt⟩ := ht.count
+    have := hnd.length_le_of_subset (l₂ := v.g.nodes) (fun x hx => conn_stays hg.2 ((hmem x).mp hx) hsN)
+    omega
+
+/-! non-vacuity: the stream of `exView`'s Kruskal run, collected into the three graph types -/
+example : feFitsB u32max [2, 0, 1, 3] [⟨2, 0, 3⟩, ⟨0, 1, 4⟩] = true := by decide
+example : collectGraph 255 false [2, 0, 1, 3] [⟨2, 0, 3⟩, ⟨0, 1, -4⟩] = .ok [2, 0, 1, 3] [(1, 2, 3), (2, 0, -4)] := by
+  decide
+example : collectStable 255 [2, 0, 1, 3] [⟨2, 0, 3⟩, ⟨0, 1, -4⟩] = .ok [2, 0, 1, 3] [(1, 2, 3), (2, 0, -4)] := by
+  decide
+example : collectGraph 255 true [2, 0] [⟨0, 2, 1⟩] = .panic := by decide
+
+/-! Part 9 — wave 4, goal 2: `min_spanning_tree_prim` on directed storage
+
+The documentation says "Graph is treated as if undirected.  The computed minimum spanning tree can be
+wrong if this is not true."  On directed storage the iterator pushes `g.edges(a)` — the OUT-edges of
+`a` only — so the graph is NOT treated as if undirected; what it computes there is specified by
+`DirPrimTree` (`Oracle/C12W4.lean`) and proved below; that this is neither a spanning tree of the
+undirected component nor of minimum weight is refuted by the two witnesses. -/
+
+/-- **Judge soundness, Prim on directed storage**: an accepted stream lists all nodes in order and
+then a greedy out-tree from the first node — every edge element is a stored edge of `g` in its stored
+direction with its weight, starts in the tree built so far, ends at a new node, and is a lightest
+stored edge leaving the tree; at the end no stored edge leaves the tree. -/
+theorem C12_judge_prim_directed_sound (g : MGraph) (hd : g.directed = true) (ns : List Nat)
+    (es : List EdgeEl) (feN feE : String) (h : judgeStream g true ns es feN feE = none) :
+    ns = g.nodes ∧ ∃ S, absEdges ns es = some S ∧
+      ((g.nodes = [] ∧ S = []) ∨ ∃ r rest, g.nodes = r :: rest ∧ DirPrimTree g.edges r S) := by
+  unfold judgeStream at h
+  split at h
+  · cases h
+  · rename_i hns
+    refine ⟨by simpa using hns, ?_⟩
+    split at h
+    · cases h
+    · rename_i S hS
+      split at h
+      · cases h
+      · simp only [if_true, hd] at h
+        exact ⟨S, hS, (judgePrimDirected_iff g.nodes g.edges S).mp h⟩
+
+/-- the judge for directed storage decides its specification (sound and complete) -/
+theorem C12_judge_prim_directed_iff (V : List Nat) (E : List Edge) (S : List (Nat × Nat × Int)) :
+    judgePrimDirected V E S = none ↔ (V = [] ∧ S = []) ∨ ∃ r rest, V = r :: rest ∧ DirPrimTree E r S :=
+  judgePrimDirected_iff V E S
+
+/-- **what a greedy out-tree is** (directed graph): its nodes — the first node and the targets of the
+edge elements, each once — are EXACTLY the nodes reachable from the first node by directed walks;
+one edge less than nodes; every edge element is a stored edge in stored direction, starts at the
+first node or at the target of an earlier element, and ends at a node no earlier element ends at;
+read as undirected edges the stream has no cycle. -/
+theorem C12_prim_directed_tree_facts (g : MGraph) (hd : g.directed = true) (r : Nat)
+    (S : List (Nat × Nat × Int)) (h : DirPrimTree g.edges r S) : ∃ T, DirPrimFacts g r S T :=
+  dirPrimTree_facts hd h
+
+/-- **Prim model on directed storage** (`DView`: `g.edges(a)` = the stored out-edges of `a`): it
+terminates within `primFuel` without fault or panic; on the empty graph it emits nothing; otherwise
+the nodes in order and a greedy out-tree from the first node. -/
+theorem C12_prim_model_directed (v : View) (hv : DView v) :
+    (v.g.nodes = [] → prim v = .ok [] []) ∧
+    ∀ s rest, v.g.nodes = s :: rest →
+      ∃ A : List Item, prim v = .ok v.g.nodes (A.map (toEl v.g.nodes)) ∧
+        DirPrimTree v.g.edges s (A.map itemTriple) ∧ ∀ it ∈ A, it.a ∈ v.g.nodes ∧ it.b ∈ v.g.nodes :=
+  prim_directed_correct v hv
+
+/-- … and its stream collects, with `from_elements`, into that out-tree -/
+theorem C12_from_elements_prim_directed (v : View) (hv : viewOkB v = true) (hd : v.g.directed = true)
+    (hn : v.g.nodes.length ≤ u32max) (kind : String) (s : Nat) (rest : List Nat) (hV : v.g.nodes = s :: rest) :
+    ∃ A : List Item, prim v = .ok v.g.nodes (A.map (toEl v.g.nodes)) ∧
+      DirPrimTree v.g.edges s (A.map itemTriple) ∧
+      collect kind v.g.nodes (A.map (toEl v.g.nodes)) = .ok v.g.nodes (A.map itemTriple) := by
+  have hdv := viewOkB_dview hv hd
+  obtain ⟨A, hrun, ht, hin⟩ := (prim_directed_correct v hdv).2 s rest hV
+  refine ⟨A, hrun, ht, C12_from_elements_items kind _ A hin hn ?_⟩
+  obtain ⟨T, hg, _⟩ := ht
+  have hsN : s ∈ v.g.nodes := by rw [hV]; exact List.mem_cons_self ..
+  have hnd : T.Nodup := hg.nodup (by simp)
+  have hsub : ∀ x ∈ T, x ∈ v.g.nodes := by
+    intro x hx
+    rw [hg.nodes_eq] at hx
+    rcases List.mem_append.mp hx with hx | hx
+    · simp only [List.mem_reverse, List.mem_map] at hx
+      obtain ⟨t, ⟨it, hit, rfl⟩, rfl⟩ := hx
+      exact (hin it hit).2
+    · have : x = s := by simpa using hx
+      rw [this]; exact hsN
+  have h1 := hnd.length_le_of_subset (l₂ := v.g.nodes) hsub
+  have h2 := hg.length
+  simp at h2; omega
+
+/-- a directed view: nodes 0, 1 and the single stored edge 1 → 0 -/
+def dirView1 : View :=
+  { g := { directed := true, nodes := [0, 1], edges := [⟨0, 1, 0, 1⟩] },
+    nb := 2, ix := [(0, 0), (1, 1)], out := [(0, []), (1, [(0, 0)])], inn := [] }
+
+/-- **"treated as if undirected" does not hold on directed storage** (refutation of the undirected
+reading of `C12_prim_model_correct` for directed views): the view `dirView1` passes every check of
+the driver, Kruskal connects its two nodes, but Prim — starting at node 0, which has no out-edge —
+emits no edge, so its output does not span the first node's component. -/
+theorem C12_prim_directed_undirected_reading_false_witness :
+    ¬ ∀ v : View, viewOkB v = true → ∀ s rest, v.g.nodes = s :: rest →
+      ∃ A : List Item, prim v = .ok v.g.nodes (A.map (toEl v.g.nodes)) ∧ PrimTree v s A := by
+  intro hall
+  obtain ⟨A, hrun, ht⟩ := hall dirView1 (by decide) 0 [1] rfl
+  have hp : prim dirView1 = .ok [0, 1] [] := by decide
+  rw [hp] at hrun
+  have hA : A = [] := by
+    cases A with
+    | nil => rfl
+    | cons a A' => simp at hrun
+  subst hA
+  have hc : Conn dirView1.g.edges 0 1 := (Conn.edge (e := ⟨0, 1, 0, 1⟩) (by simp [dirView1])).symm
+  have := ht.spans 1 hc
+  exact (connQ_false_iff (F := []) (a := 0) (b := 1)).mp (by decide) this
+
+/-- the same view under Kruskal: the edge is found (the graph IS treated as undirected there) -/
+example : kruskal dirView1 [(1, 0, 0)] = .ok [0, 1] [⟨1, 0, 1⟩] := by decide
+example : judgePrimDirected [0, 1] dirView1.g.edges [] = none := by decide
+
+/-- a directed view in which every node is reachable from the first: 0 → 1 (1), 0 → 2 (10), 2 → 1 (2) -/
+def dirView2 : View :=
+  { g := { directed := true, nodes := [0, 1, 2], edges := [⟨0, 0, 1, 1⟩, ⟨1, 0, 2, 10⟩, ⟨2, 2, 1, 2⟩] },
+    nb := 3, ix := [(0, 0), (1, 1), (2, 2)], out := [(0, [(1, 0), (2, 1)]), (1, []), (2, [(1, 2)])], inn := [] }
+
+/-- **"the computed minimum spanning tree can be wrong"**: on `dirView2` Prim reaches every node but
+with total weight 11, while the spanning tree {0–1, 2–1} of the same graph weighs 3. -/
+theorem C12_prim_directed_not_minimum_witness :
+    viewOkB dirView2 = true ∧ prim dirView2 = .ok [0, 1, 2] [⟨0, 1, 1⟩, ⟨0, 2, 10⟩] ∧
+    judgePrimDirected [0, 1, 2] dirView2.g.edges [(0, 1, 1), (0, 2, 10)] = none ∧
+    SpanningForest dirView2.g.edges [⟨0, 0, 1, 1⟩, ⟨2, 2, 1, 2⟩] ∧
+    weight [⟨0, 0, 1, 1⟩, ⟨2, 2, 1, 2⟩] < weight [⟨0, 0, 1, 1⟩, ⟨1, 0, 2, 10⟩] := by
+  refine ⟨by decide, by decide, by decide, ⟨⟨[⟨1, 0, 2, 10⟩], by decide⟩, ?_, ?_⟩, by decide⟩
+  · exact forestMust_acyclic (by decide)
+  · exact spanMay_sound (by decide)
+
+/-! Part 10 — wave 4, goal 3: the heap mirror, the priority-queue specification, `MinScored` keys -/
+
+/-- **the heap mirror refines the priority-queue specification**: for EVERY script of `push`, `pop`,
+`clear` calls the mirror's answers (internal vector included) are accepted by `pqJudge` — the judge
+every answer of the real `BinaryHeap<MinScored<_, _>>` is held against in the `heap` cases. -/
+theorem C12_heap_refines_priority_queue (ops : List HOp) : pqJudgeAll [] ops (heapRun [] ops) = none :=
+  heapRun_accepted ops
+
+/-- what the priority-queue judge accepts of a `pop`: `None` only on the empty queue; otherwise a
+queued item of least score, which leaves the queue, and the heap's vector holds the rest -/
+theorem C12_pq_pop_sound (m m' : List Item) (r : Option Item) (lay : List Nat)
+    (h : pqJudge m .pop (.popped r lay) = .ok m') :
+    (r = none → m = [] ∧ m' = []) ∧
+    (∀ x, r = some x → x ∈ m ∧ (∀ y ∈ m, x.w ≤ y.w) ∧ m' = m.erase x ∧ lay.Perm (m'.map (·.a))) :=
+  pqJudge_pop_sound h
+
+/-- **`MinScored<f64, _>` keys**: `MinScored::cmp` (transcribed branch by branch, NaN cases included,
+as `SP.scoreCmp` of the C10 model) orders float-like scores in range exactly as the heap mirror
+orders the integer keys `scoreKey` (finite `x ↦ x`, `-∞ ↦ -10^30`, `+∞ ↦ 10^30`, NaN ↦ `10^30 + 1`:
+NaN is the LAST score to be popped). -/
+theorem C12_minscored_key_embedding (a b : SP.Score) (ha : scoreInRangeB a = true)
+    (hb : scoreInRangeB b = true) (pa pb qa qb : Nat) :
+    scoreRle a b = rle ⟨scoreKey a, pa, qa⟩ ⟨scoreKey b, pb, qb⟩ :=
+  scoreRle_eq_rle a b ha hb pa pb qa qb
+
+/-! non-vacuity: a script with equal keys, NaN and infinities; the judge rejects a wrong pop -/
+example : heapRun [] [.push ⟨3, 0, 0⟩, .push ⟨3, 1, 0⟩, .push ⟨scoreKey .nan, 2, 0⟩, .push ⟨scoreKey .ninf, 3, 0⟩, .pop, .pop] =
+    [.pushed [0], .pushed [0, 1], .pushed [0, 1, 2], .pushed [3, 0, 2, 1],
+     .popped (some ⟨scoreKey .ninf, 3, 0⟩) [0, 1, 2], .popped (some ⟨3, 0, 0⟩) [1, 2]] := by decide
+example : (pqJudge [⟨3, 0, 0⟩, ⟨1, 1, 0⟩] .pop (.popped (some ⟨3, 0, 0⟩) [1])).toOption = none := by decide
+
+/-! Part 11 — run-time checks of the hypotheses
+
+Every hypothesis of the model theorems that concerns the concrete case is a Boolean the driver
+evaluates on every case it judges (`Driver/C12.lean`, `step`/`answer`/`heapAnswer`):
+`viewFailure` (= `viewOkB`, by name) on the `graph` line, `erOkB` on every `kruskal` request,
+`feFitsB` on every judged stream, `scoreInRangeB` on every heap key.  The first two concern the
+encoding (`SPECFAIL side condition …`), the last two the generated input (`SPECFAIL generator left
+the proved range …`). -/
+
+/-- the named side conditions of the `graph` line are `viewOkB` -/
+theorem C12_view_check (v : View) : viewFailure v = none ↔ viewOkB v = true := viewFailure_none_iff v
+
+theorem C12_wellformed_check (v : View) (h : viewFailure v = none) : v.g.WellFormed :=
+  (viewOkB_sound ((viewFailure_none_iff v).mp h)).1
+
+/-- scope of `C12_judge_iff` / `C12_judge_complete` (well-formed graph) -/
+theorem C12_judge_scope_check (v : View) (h : viewFailure v = none) :
+    v.g.nodes.Nodup ∧ ∀ e ∈ v.g.edges, e.src ∈ v.g.nodes ∧ e.tgt ∈ v.g.nodes :=
+  C12_wellformed_check v h
+
+theorem C12_kview_check (v : View) (h : viewFailure v = none) : KView v :=
+  (viewOkB_sound ((viewFailure_none_iff v).mp h)).2.1
+
+theorem C12_pview_check (v : View) (h : viewFailure v = none) (hd : v.g.directed = false) : PView v :=
+  (viewOkB_sound ((viewFailure_none_iff v).mp h)).2.2 hd
+
+theorem C12_dview_check (v : View) (h : viewFailure v = none) (hd : v.g.directed = true) : DView v :=
+  viewOkB_dview ((viewFailure_none_iff v).mp h) hd
+
+theorem C12_erok_check (v : View) (er : List (Nat × Nat × Nat)) (h : erOkB v er = true) : ErOk v er :=
+  erOkB_sound h
+
+/-- hypothesis `her` of `C12_kruskal_model_correct`: the edge references join nodes of the graph -/
+theorem C12_er_endpoints_check (v : View) (er : List (Nat × Nat × Nat)) (hv : viewFailure v = none)
+    (her : erOkB v er = true) : ∀ x ∈ er, x.1 ∈ v.g.nodes ∧ x.2.1 ∈ v.g.nodes := by
+  intro x hx
+  obtain ⟨e, he, _, hends⟩ := (erOkB_sound her).sound x hx
+  have hw := (C12_wellformed_check v hv).2 e he
+  rcases hends with ⟨h1, h2⟩ | ⟨h1, h2⟩
+  · rw [← h1, ← h2]; exact hw
+  · rw [← h1, ← h2]; exact ⟨hw.2, hw.1⟩
+
+theorem C12_fefits_check (endv : Nat) (ns : List Nat) (es : List EdgeEl) (h : feFitsB endv ns es = true) :
+    FeFits endv ns es :=
+  feFitsB_sound h
+
+/-- `feFitsB` implies the bound on the node count used by the end-to-end theorems -/
+theorem C12_nodecount_check (ns : List Nat) (es : List EdgeEl) (h : feFitsB u32max ns es = true) :
+    ns.length ≤ u32max :=
+  (feFitsB_sound h).nodes
+
+theorem C12_heapkey_check (k : SP.Score) (h : scoreInRangeB k = true) :
+    ∀ x, k = .fin x → -bigKey < x ∧ x < bigKey := by
+  intro x hx
+  subst hx
+  simpa [scoreInRangeB] using h
+
+/-- **What an `ok` verdict means, wave 4**: on every case whose side conditions hold, for every
+graph type of the `fe=` field — Kruskal: the model's stream collects into a minimum spanning forest of
+the abstract graph; Prim on an undirected graph: into a minimum spanning tree of the first node's
+component; Prim on directed storage: into a greedy out-tree spanning exactly the nodes reachable from
+the first node. -/
+theorem C12_accepted_case_w4 (v : View) (er : List (Nat × Nat × Nat)) (hv : viewFailure v = none)
+    (her : erOkB v er = true) (hn : v.g.nodes.length ≤ u32max) (kind : String) :
+    (∃ A : List Item, kruskal v er = .ok v.g.nodes (A.map (toEl v.g.nodes)) ∧ KruskalOnGraph v A ∧
+      collect kind v.g.nodes (A.map (toEl v.g.nodes)) = .ok v.g.nodes (A.map itemTriple)) ∧
+    (∀ s rest, v.g.nodes = s :: rest →
+      (v.g.directed = false → ∃ A : List Item, prim v = .ok v.g.nodes (A.map (toEl v.g.nodes)) ∧
+        PrimTree v s A ∧ collect kind v.g.nodes (A.map (toEl v.g.nodes)) = .ok v.g.nodes (A.map itemTriple)) ∧
+      (v.g.directed = true → ∃ A : List Item, prim v = .ok v.g.nodes (A.map (toEl v.g.nodes)) ∧
+        (∃ T, DirPrimFacts v.g s (A.map itemTriple) T) ∧
+        collect kind v.g.nodes (A.map (toEl v.g.nodes)) = .ok v.g.nodes (A.map itemTriple))) := by
+  have hv' := (viewFailure_none_iff v).mp hv
+  refine ⟨C12_from_elements_kruskal v er hv' her hn kind, fun s rest hV => ⟨fun hd => ?_, fun hd => ?_⟩⟩
+  · exact C12_from_elements_prim v hv' hd hn kind s rest hV
+  · obtain ⟨A, h1, h2, h3⟩ := C12_from_elements_prim_directed v hv' hd hn kind s rest hV
+    exact ⟨A, h1, dirPrimTree_facts hd h2, h3⟩
+
+/-! non-vacuity of the checks: the three example views pass -/
+example : viewFailure exView = none ∧ viewFailure dirView1 = none ∧ viewFailure dirView2 = none := by decide
 
 end PetgraphModel.C12T
